@@ -62,7 +62,7 @@ function genOriginalMap (rng, inputLines) {
   return { map, tokens }
 }
 
-const REF_KINDS = ['inline', 'inline-charset', 'relative', 'absolute', 'none', 'missing', 'perm', 'dir', 'midread', 'bad-base64', 'bad-json', 'bad-vlq', 'index-map', 'empty-file', 'oversized', 'two-comments', 'block-comment', 'comment-not-last']
+const REF_KINDS = ['inline', 'inline-charset', 'relative', 'relative-subfolder', 'absolute', 'none', 'missing', 'perm', 'dir', 'midread', 'bad-base64', 'bad-json', 'bad-vlq', 'index-map', 'empty-file', 'oversized', 'two-comments', 'block-comment', 'comment-not-last']
 
 function genCase (rng, refKind, chain, comments) {
   const file = '/srv/app/dist/gen.js'
@@ -75,13 +75,16 @@ function genCase (rng, refKind, chain, comments) {
   const files = {}
   let usable = true
   let trailer
+  let mapPath = null
   const relPath = '/srv/app/dist/' + relName
   switch (refKind) {
     case 'inline': url = 'data:application/json;base64,' + b64(mapText); trailer = `//# sourceMappingURL=${url}`; break
     // the data URL form written by babel / convert-source-map / webpack's inline devtool: a charset parameter before the encoding
     case 'inline-charset': url = 'data:application/json;' + rng.pick(['charset=utf-8', 'charset=UTF-8', 'charset=utf8']) + ';base64,' + b64(mapText); trailer = `//# sourceMappingURL=${url}`; break
     case 'relative': files[relPath] = { content: mapText }; trailer = `//# sourceMappingURL=${url}`; break
-    case 'absolute': files[url] = { content: mapText }; trailer = `//# sourceMappingURL=${url}`; break
+    case 'absolute': files[url] = { content: mapText }; trailer = `//# sourceMappingURL=${url}`; mapPath = url; break
+    // the map lives in another folder than the file: its sources are relative to the MAP's folder
+    case 'relative-subfolder': url = 'maps/' + relName; files['/srv/app/dist/' + url] = { content: mapText }; trailer = `//# sourceMappingURL=${url}`; mapPath = '/srv/app/dist/' + url; break
     case 'none': trailer = ''; usable = false; break
     case 'missing': trailer = `//# sourceMappingURL=${url}`; usable = false; break
     case 'perm': files[relPath] = { err: 'PermissionDenied' }; trailer = `//# sourceMappingURL=${url}`; usable = false; break
@@ -99,7 +102,7 @@ function genCase (rng, refKind, chain, comments) {
   }
   const code = lines.join('\n') + '\n' + trailer + (rng.bool() ? '\n' : '')
   const config = cfg({ chain, comments, methods: STRING_METHODS, verbosity: 'OFF' })
-  return { code, file, reader: { files, parent: 'node' }, config, cfgKey: `c${chain}${comments}`, meta: { refKind, chain, comments, usable, url, original: map, originalTokens: tokens.length } }
+  return { code, file, reader: { files, parent: 'node' }, config, cfgKey: `c${chain}${comments}`, meta: { refKind, chain, comments, usable, url, mapPath, original: map, originalTokens: tokens.length } }
 }
 
 function tokenStream (code) {
@@ -208,6 +211,21 @@ function check (c, resp, baseline) {
       if (e) used.add(key)
     }
     out.composed = composed
+    // a source is named relative to the folder of the map that names it: when the original map lives elsewhere than the
+    // file (whose trailer now carries the chained map), the same string no longer names the same file
+    if (c.meta.mapPath && !orig.sourceRoot && !emitted.sourceRoot) {
+      const pathMod = require('path')
+      const fileDir = pathMod.dirname(c.file); const mapDir = pathMod.dirname(c.meta.mapPath)
+      for (const e of emToks) {
+        if (e.src === undefined) continue
+        const es = emitted.sources[e.src]
+        if (pathMod.isAbsolute(es) || /^[a-z]+:/i.test(es)) continue
+        // which original source is it: by position (same line/column as some original token naming a source of that name)
+        const want = orig.sources.filter(o => !pathMod.isAbsolute(o) && !/^[a-z]+:/i.test(o)).map(o => pathMod.resolve(mapDir, o))
+        const got = pathMod.resolve(fileDir, es)
+        if (!want.includes(got)) { push('source-resolves-elsewhere', `the chained map names ${JSON.stringify(es)}, which from the file's folder is ${got}; the original map (${c.meta.mapPath}) names its sources relative to its own folder: ${JSON.stringify(want)}`); break }
+      }
+    }
     for (const e of emToks) if (!used.has(e.genLine + ':' + e.genCol)) { push('extra-entry', `emitted map has an entry at generated ${e.genLine}:${e.genCol} that no rewrite-map token accounts for`); break }
   } else if (c.meta.usable === 'either') {
     // oversized but well-formed map / comment followed by code: chained or plain are both acceptable; must not fail
@@ -249,7 +267,7 @@ function check (c, resp, baseline) {
 module.exports = {
   id: 'C10',
   level: 'fault_enumeration',
-  rule: 'every reference kind (inline data URL with and without a charset parameter, relative, absolute, none, missing, permission denied, directory, mid-read failure, invalid base64 / JSON / VLQ, index map, empty file, 3 MB generated map, two comments, block comment, comment not last) x {chain on/off} x {comments on/off} is enumerated per shard against programs whose strings, regexes, templates and other comments look like the sourceMappingURL comment, with random original maps (1-4 sources and names with repeated entries, sourceRoot, sparse lines, tokens without source). Monitors: emitted map == composition of the plain rewrite map (returned by the same call) with the original map, token by token, under both lookup semantics; plain rewrite map when there is no usable map or chaining is off; exactly one decodable trailer as last line; superseded comment removed and every other comment kept when comments are on (differential: the same call on a baseline input whose reference-like comments are defused in place must print the same comments except the one superseded reference); acorn token stream (strings/regexes by value) identical across the four chain/comments settings of the same input. distinct_nontrivial = distinct cases whose emitted map was decided.',
+  rule: 'every reference kind (inline data URL with and without a charset parameter, relative, relative in a sub-folder, absolute, none, missing, permission denied, directory, mid-read failure, invalid base64 / JSON / VLQ, index map, empty file, 3 MB generated map, two comments, block comment, comment not last) x {chain on/off} x {comments on/off} is enumerated per shard against programs whose strings, regexes, templates and other comments look like the sourceMappingURL comment, with random original maps (1-4 sources and names with repeated entries, sourceRoot, sparse lines, tokens without source). Monitors: emitted map == composition of the plain rewrite map (returned by the same call) with the original map, token by token, under both lookup semantics; plain rewrite map when there is no usable map or chaining is off; exactly one decodable trailer as last line; superseded comment removed and every other comment kept when comments are on (differential: the same call on a baseline input whose reference-like comments are defused in place must print the same comments except the one superseded reference); acorn token stream (strings/regexes by value) identical across the four chain/comments settings of the same input. distinct_nontrivial = distinct cases whose emitted map was decided.',
   assumptions: ['comments that the printer itself drops or relocates around injected code (it does so with and without a reference comment) are not attributed to this property', 'an oversized but well-formed map may or may not be chained (both accepted), it must not fail', 'a sourceMappingURL comment that is followed by more code may or may not be honoured (statement silent); text safety and the single trailer are still required', 'sourceRoot may be applied by joining with or without a slash'],
   plan (ctx) {
     const rounds = ctx.tier === 'thorough' ? 400 : 48
